@@ -102,14 +102,12 @@ class StringContainsToConcat:
         if len(node) != 3:
             return []
         var = node[1]
-        if var.is_leaf() and not is_piped_symbol(var):
-            k1 = f'{var}_prefix'
-            k2 = f'{var}_suffix'
-        else:
-            # the first argument is a term (or a quoted symbol), its text
-            # can not be part of a symbol
-            k1 = f'x{node.id}_prefix'
-            k2 = f'x{node.id}_suffix'
+        if not var.is_leaf() or is_piped_symbol(var):
+            # the text of a term (or of a quoted symbol) can not be part of
+            # a new symbol
+            return []
+        k1 = f'{var}_prefix'
+        k2 = f'{var}_suffix'
         if is_var(Node(k1)) or is_var(Node(k2)):
             return []
         vars = [
